@@ -913,4 +913,210 @@ Section Proofs.
     unfold others. intros H. apply filter_In in H. destruct H as [_ H]. rewrite Hm in H. discriminate.
   Qed.
 
+  (** ** Coherent chains in every reachable world (fresh uuids)
+
+      [uuid1()] returns an id that no file of the directory carries: [fresh_ok]. *)
+
+  Definition cinv (s : cstate) : Prop :=
+    chain_ok (mine s) = true /\
+    (writable s = false -> patching s = true -> closed s = false ->
+     forall h t, mine s = h :: t -> fcommitted h = true).
+
+  Lemma cinv_create_patch : forall u (s : cstate), cinv s -> ~ In u (map fid (mine s)) ->
+    cinv (fst (create_patch cempty u s)).
+  Proof.
+    intros u s H0 Hf. pose proof H0 as [Hc Hi]. unfold create_patch.
+    destruct (closed s) eqn:Ecl; [exact H0|].
+    destruct (patching s) eqn:Ep; simpl; [|exact H0].
+    destruct (writable s) eqn:Ew; [exact H0|].
+    destruct (mine s) as [|l older] eqn:Em; [exact H0|].
+    destruct (has_name _ (dir_of s)); [exact H0|].
+    unfold cinv. simpl. split; [|discriminate].
+    unfold chain_ok in *. apply andb_true_iff in Hc. destruct Hc as [Hl Hn].
+    rewrite chain_links_cons2.
+    cbn [new_patch frec fidx fid fprev fcommitted opt_N_eqb map nodup_N existsb].
+    rewrite !N.eqb_refl, Hl.
+    rewrite (Hi eq_refl eq_refl eq_refl l older eq_refl).
+    assert (Hlt : (fidx l <? fidx l + 1)%N = true) by (apply N.ltb_lt; lia). rewrite Hlt.
+    cbn [map nodup_N] in Hn. rewrite Hn. cbn [andb].
+    cbn [map In] in Hf.
+    destruct (u =? fid l)%N eqn:E1; [apply N.eqb_eq in E1; exfalso; apply Hf; left; congruence|].
+    destruct (existsb (N.eqb u) (map fid older)) eqn:E2; [|reflexivity].
+    apply existsb_N_In in E2. exfalso. apply Hf. right. exact E2.
+  Qed.
+
+  Lemma cinv_commit : forall (s : cstate), cinv s -> cinv (fst (commit_patch s)).
+  Proof.
+    intros s H0. pose proof H0 as [Hc Hi]. unfold commit_patch.
+    destruct (closed s) eqn:Ecl; [exact H0|].
+    destruct (patching s) eqn:Ep; simpl; [|exact H0].
+    destruct (writable s) eqn:Ew; simpl; [|exact H0].
+    destruct (mine s) as [|l older] eqn:Em; [exact H0|].
+    unfold cinv. simpl. split.
+    - eapply chain_ok_head_irrelevant; [| | | |exact Hc]; reflexivity.
+    - intros _ _ _ h t E. inversion E. reflexivity.
+  Qed.
+
+  Lemma cinv_discard : forall (s : cstate), cinv s -> cinv (fst (discard_patch s)).
+  Proof.
+    intros s H0. pose proof H0 as [Hc Hi]. unfold discard_patch.
+    destruct (closed s) eqn:Ecl; [exact H0|].
+    destruct (patching s) eqn:Ep; simpl; [|exact H0].
+    destruct (writable s) eqn:Ew; simpl; [|exact H0].
+    destruct (mine s) as [|l [|g older]] eqn:Em; try exact H0.
+    destruct (chain_ok_tail _ _ _ Hc) as [Hc' Hg].
+    unfold cinv. simpl. split; [exact Hc'|]. intros _ _ _ h t E. inversion E; subst. exact Hg.
+  Qed.
+
+  Lemma cinv_write : forall g (s : cstate), cinv s -> cinv (fst (write g s)).
+  Proof.
+    intros g s H0. pose proof H0 as [Hc Hi]. unfold write.
+    destruct (closed s) eqn:Ecl; [exact H0|].
+    destruct (writable s) eqn:Ew; simpl; [|exact H0].
+    destruct (mine s) as [|l older] eqn:Em; [exact H0|].
+    unfold cinv. simpl. split; [|discriminate].
+    eapply chain_ok_head_irrelevant; [| | | |exact Hc]; reflexivity.
+  Qed.
+
+  Lemma cinv_close_false : forall (s : cstate), cinv s -> cinv (fst (close false s)).
+  Proof.
+    intros s H0. pose proof H0 as [Hc Hi]. unfold close. destruct (closed s) eqn:Ecl; [exact H0|].
+    rewrite andb_false_r. unfold cinv. simpl. split; [exact Hc|discriminate].
+  Qed.
+
+  Lemma open_mode_cinv : forall m t (d : list cfile) r u s,
+    open_mode cempty m t d r u = Opened s -> ~ In u (map fid d) -> cinv s.
+  Proof.
+    intros m t d r u s H Hf.
+    assert (Hcr : forall n tr, create cempty n tr d r u = Opened s -> cinv s).
+    { intros n tr. unfold create. destruct (negb (valid_name n)); [discriminate|].
+      destruct (has_name _ _); [discriminate|]. intros E; inversion E. unfold cinv. simpl.
+      split; [reflexivity|discriminate]. }
+    assert (Hex : forall m' sel oth, (forall g, In g sel -> In g d) ->
+              open_existing cempty m' sel oth d u = Opened s -> cinv s).
+    { intros m' sel oth Hsub He. unfold open_existing in He.
+      destruct (chain_ok (sort_desc sel)) eqn:Hc; [|discriminate].
+      destruct (sort_desc sel) as [|nw ol] eqn:Es; [discriminate|].
+      remember (mkstate oth (nw :: ol) (infer_name (fname (last (nw :: ol) nw)))
+                        (negb (is_r m') && negb (fcommitted nw)) (negb (is_r m')) false) as st eqn:Est.
+      assert (Hst : cinv st).
+      { rewrite Est. unfold cinv. simpl. split; [exact Hc|].
+        intros Hw Hp _ h0 t0 E. inversion E; subst h0 t0. rewrite Hp in Hw. simpl in Hw.
+        apply negb_false_iff in Hw. exact Hw. }
+      destruct (negb (is_r m') && negb (negb (is_r m') && negb (fcommitted nw))).
+      - destruct (create_patch cempty u st) as [st' o] eqn:Ecp. destruct o; [|discriminate].
+        inversion He; subst s. change st' with (fst (st', Ok)). rewrite <- Ecp.
+        apply cinv_create_patch; [exact Hst|]. rewrite Est. cbn [mine]. intros Hin. apply Hf.
+        apply in_map_iff in Hin. destruct Hin as [g [Eg Hg]]. apply in_map_iff. exists g. split; [exact Eg|].
+        apply Hsub. eapply Permutation_in; [apply Permutation_sym, sort_perm|]. rewrite Es. exact Hg.
+      - inversion He; subst s. exact Hst. }
+    destruct t as [n|l]; cbn [open_mode] in H.
+    - assert (Hfo : forall g, In g (files_of n d) -> In g d).
+      { intros g Hg. unfold files_of in Hg. apply filter_In in Hg. tauto. }
+      assert (Hre : forall m', (if negb (valid_name n) then Refused EValue d
+                 else match files_of n d with
+                      | [] => if is_a m' then create cempty n false d r u else Refused ENotFound d
+                      | _ :: _ => open_existing cempty m' (files_of n d) (others n d) d u
+                      end) = Opened s -> cinv s).
+      { intros m' H'. destruct (negb (valid_name n)); [discriminate|].
+        destruct (files_of n d) as [|f0 fs] eqn:Ef.
+        - destruct (is_a m'); [|discriminate]. eapply Hcr; exact H'.
+        - eapply Hex; [|exact H']. exact Hfo. }
+      destruct m; try (eapply Hcr; exact H).
+      + apply (Hre MR). destruct (files_of n d); exact H.
+      + apply (Hre MRp). destruct (files_of n d); exact H.
+      + apply (Hre MA). destruct (files_of n d); exact H.
+    - destruct m; try discriminate;
+        (destruct l as [|a l0]; [discriminate|];
+         destruct (lookup_all (a :: l0) d) as [sel|] eqn:El; [|discriminate];
+         eapply Hex; [|exact H]; intros g Hg; apply (lookup_all_In _ _ _ El g Hg)).
+  Qed.
+
+  Definition fresh_ok (o : fop) (w : world) : Prop :=
+    match o with
+    | FCreatePatch u | FOpen _ _ _ _ u => ~ In u (map fid (wdir w))
+    | _ => True
+    end.
+
+  Fixpoint fresh_run (ops : list fop) (w : world) : Prop :=
+    match ops with
+    | [] => True
+    | o :: r => fresh_ok o w /\ fresh_run r (fst (step o w))
+    end.
+
+  Definition ginv (w : world) : Prop :=
+    match here w with POpen h => cinv (hs h) | PDir _ => True end.
+
+  Lemma step_ginv : forall o w, ginv w -> fresh_ok o w -> ginv (fst (step o w)).
+  Proof.
+    intros o w Hg Hf. unfold step. unfold ginv in Hg. destruct (here w) as [d|h] eqn:Hh.
+    - assert (Ed : wdir w = d) by (unfold wdir; rewrite Hh; reflexivity).
+      destruct o as [mf m t r u|u|m| |g| |c m|ew t m| |n]; try (unfold ginv; simpl; rewrite ?Hh; exact I).
+      + simpl in Hf. rewrite Ed in Hf.
+        destruct (open_cls_cases mf m t d (hsides w) r u) as [E|E]; rewrite E; [unfold ginv; simpl; exact I|].
+        destruct (open_mode cempty m t d r u) as [s|e d'] eqn:Eo; unfold ginv; simpl; [|exact I].
+        eapply open_mode_cinv; eauto.
+      + destruct (valid_name n); unfold ginv; simpl; rewrite ?Hh; exact I.
+    - assert (Hsame : ginv w) by (unfold ginv; rewrite Hh; exact Hg).
+      assert (Ed : wdir w = dir_of (hs h)) by (unfold wdir; rewrite Hh; reflexivity).
+      assert (Hcm : forall m, ginv (fst (do_commit m w h)) /\ exists h', here (fst (do_commit m w h)) = POpen h').
+      { intros m. unfold do_commit. destruct (hmf h).
+        - destruct (commit_patch (hs h)) as [s' [|e]] eqn:Ec; simpl; [|split; [exact Hsame|eauto]].
+          destruct (mine (hs h)) as [|l older] eqn:Em; simpl; [split; [exact Hsame|eauto]|].
+          split; [|eauto]. unfold ginv. simpl. apply cinv_commit. apply cinv_write. exact Hg.
+        - unfold via, put, ginv. simpl. split; [apply cinv_commit; exact Hg|eauto]. }
+      destruct o as [mf m t r u|u|m| |g| |c m|ew t m| |n]; try exact Hsame.
+      + unfold via, put, ginv. simpl. apply cinv_create_patch; [exact Hg|].
+        simpl in Hf. rewrite Ed in Hf. intros Hin. apply Hf. unfold dir_of. rewrite map_app.
+        apply in_or_app. right. exact Hin.
+      + apply Hcm.
+      + unfold via, put, ginv. simpl. apply cinv_discard. exact Hg.
+      + unfold via, put, ginv. simpl. apply cinv_write. exact Hg.
+      + unfold do_close. destruct (closed (hs h)); [exact Hsame|].
+        set (w1 := if writable (hs h) && c then fst (do_commit m w h) else w).
+        assert (H1 : ginv w1 /\ exists h1, here w1 = POpen h1).
+        { unfold w1. destruct (writable (hs h) && c); [apply Hcm|split; [exact Hsame|eauto]]. }
+        destruct H1 as [Hg1 [h1 Hh1]]. rewrite Hh1. unfold via, put, ginv. simpl.
+        apply cinv_close_false. unfold ginv in Hg1. rewrite Hh1 in Hg1. exact Hg1.
+      + unfold do_merge.
+        destruct (closed (hs h)) eqn:Ecl; [exact Hsame|].
+        destruct (writable (hs h)) eqn:Ewr; [exact Hsame|].
+        destruct (negb (valid_name t)); [exact Hsame|].
+        destruct (mine (hs h)) as [|nw older] eqn:Em; [exact Hsame|].
+        destruct ew.
+        * destruct (has_name _ (other w)); [exact Hsame|]. unfold ginv. simpl. rewrite Hh. exact Hg.
+        * destruct (has_name _ (dir_of (hs h))); [exact Hsame|]. unfold ginv. simpl.
+          destruct Hg as [A B]. unfold cinv. simpl. rewrite <- Em. split; [exact A|].
+          intros _ Hp _. apply B; assumption.
+      + unfold ginv. simpl. exact I.
+  Qed.
+
+  Lemma run_ginv : forall ops w, ginv w -> fresh_run ops w -> ginv (run ops w).
+  Proof.
+    induction ops as [|o ops IH]; intros w Hg Hf; simpl; [exact Hg|].
+    destruct Hf as [Hf1 Hf2]. apply IH; [apply step_ginv; assumption|exact Hf2].
+  Qed.
+
+  (** The second sentence of the property for every world that arises from the empty
+      directory with fresh uuids: no assumption on the world is left. *)
+  Lemma snapshot_reachable : forall before m after w1 r u,
+    fresh_run before (@empty_world P) ->
+    step (FCommit m) (run before (@empty_world P)) = (w1, Ok) ->
+    exists h h1, here (run before (@empty_world P)) = POpen h /\ here w1 = POpen h1 /\
+      let l := map fname (mine (hs h1)) in
+      (forall nm, In nm l -> safe_for after nm) ->
+      exists s', open_cls empty (hmf h1) MR (ByList l) (wdir (run after w1)) (hsides (run after w1)) r u = Opened s' /\
+                 mine s' = mine (hs h1) /\ view s' = view (hs h1) /\
+                 map fst (view s') = map fst (view (hs h)).
+  Proof.
+    intros before m after w1 r u Hfr Hst. set (w := run before (@empty_world P)) in *.
+    assert (Hg : good w) by apply good_reachable.
+    assert (Hgi : ginv w) by (apply run_ginv; [exact I|exact Hfr]).
+    destruct (here w) as [d|h] eqn:Hh.
+    - exfalso. unfold step in Hst. rewrite Hh in Hst. inversion Hst.
+    - unfold ginv in Hgi. rewrite Hh in Hgi. destruct Hgi as [Hc _].
+      destruct (snapshot_after_commit m w h w1 after r u Hg Hh Hc Hst) as [h1 [Hh1 Hrest]].
+      exists h, h1. split; [reflexivity|]. split; [exact Hh1|exact Hrest].
+  Qed.
+
 End Proofs.
